@@ -492,4 +492,69 @@ example :
         && (s.mol.atoms.find? (·.key == 6)).any (fun b => b.mods == [0])
      | _ => false) = true := by decide +kernel
 
+/-- edges join nodes of the graph -/
+def EdgesOk (m : Mol) : Prop := ∀ e ∈ m.edges, e.1 ∈ m.keys ∧ e.2 ∈ m.keys
+
+instance (m : Mol) : Decidable (EdgesOk m) := by unfold EdgesOk; infer_instance
+
+/-- `residue_name_no_fallback`: the `str(resid)` fallback of `_residue_name` (every atom of the residue removed)
+is dead code.  Every resid of the key of an iteration is the resid of an anchor of one of its groups; that atom
+is in the molecule, is not flagged, is never removed and is never in the removal list — so the search of
+`_residue_name` for an atom of the residue that has not been removed always succeeds. -/
+theorem residue_name_no_fallback (m : Mol) (mods : List Modif) (given : List (List (List Placement)))
+    (hk : m.keys.Nodup) (he : EdgesOk m) :
+    ∃ s, fixPtm m mods given = .done s ∧
+      ∀ it ∈ iterations m, ∀ resid ∈ it.1,
+        ∃ a ∈ m.atoms, a.resid = resid ∧ a.ptm = false ∧ a.key ∈ s.mol.keys ∧ a.key ∉ s.removed := by
+  obtain ⟨s, hs, _, hsh, _⟩ := run_shape m mods given hk
+  obtain ⟨s', hs', hkept⟩ := template_atoms_kept m mods given hk
+  rw [hs] at hs'
+  cases hs'
+  refine ⟨s, hs, ?_⟩
+  intro it hit resid hres
+  unfold iterations at hit
+  simp only [] at hit
+  obtain ⟨hne, hall⟩ := groupRuns_mem _ it hit
+  obtain ⟨g, hg⟩ := List.exists_mem_of_ne_nil _ hne
+  have hmem := (List.mergeSort_perm _ _).subset (hall g hg)
+  obtain ⟨g', hg', heq⟩ := List.mem_map.1 hmem
+  simp only [Prod.mk.injEq] at heq
+  obtain ⟨hkey, rfl⟩ := heq
+  obtain ⟨g0, hg0, rfl⟩ := List.mem_map.1 hg'
+  rw [← hkey] at hres
+  unfold groupKey at hres
+  rw [mem_sortInts] at hres
+  obtain ⟨x, hx, hrx⟩ := List.mem_map.1 hres
+  simp only at hx
+  obtain ⟨hnex, y, _, hadj⟩ := (traversal_complete m hk g0 hg0).2.2 x hx
+  obtain ⟨_, e, hee, hends⟩ := mem_adjOf.1 hadj
+  have hxk : x ∈ m.keys := by
+    rcases hends with ⟨_, h2⟩ | ⟨_, h2⟩
+    · rw [← h2]; exact (he e hee).2
+    · rw [← h2]; exact (he e hee).1
+  obtain ⟨a, ha, hak⟩ := List.mem_map.1 hxk
+  have hatom : m.atom? x = some a := by
+    unfold Mol.atom?
+    cases hf : m.atoms.find? (fun b => b.key == x) with
+    | none =>
+      have := List.find?_eq_none.1 hf a ha
+      simp [hak] at this
+    | some b =>
+      have hb : b ∈ m.atoms := List.mem_of_find?_eq_some hf
+      have hkb : b.key = x := by simpa using List.find?_some hf
+      rw [eq_of_key_eq hk hb ha (hkb.trans hak.symm)]
+  have hresid : a.resid = resid := by
+    rw [← hrx]
+    unfold residOf
+    rw [hatom]
+    rfl
+  have hptm : a.ptm = false := by
+    cases hp : a.ptm with
+    | false => rfl
+    | true => exact absurd (hak ▸ flagged_is_extra m a ha hp) hnex
+  have hin := hkept a ha hptm
+  exact ⟨a, ha, hresid, hptm, hin, fun hr => (hsh.gone _ hr).1 hin⟩
+
+example : EdgesOk exMolAnnot := by decide
+
 end C14
